@@ -5,7 +5,7 @@ from hypothesis import strategies as st
 from vf import gen, ref, popgen, llbuild, hbuild
 
 ID = 'C03'
-BUDGET = {'quick': 1400, 'thorough': 40000}
+BUDGET = {'quick': 1500, 'thorough': 40000}
 RULE = (
     'Union of the C01 and C02 domains: individual log-likelihoods / log-posteriors (1-4 outputs, four error models, '
     'fixed error parameters, overlapping/tied time grids) and hierarchical log-likelihoods / log-posteriors over the '
@@ -16,13 +16,51 @@ RULE = (
 ASSUMPTIONS = [
     'analytic mechanistic model is harness code and returns exact output sensitivities',
     'reference score = vf/ref.py + vf/llbuild.py + vf/hbuild.py; derivative by complex step (exact to rounding)',
-    'SBML-backed models are covered by C09 (simulation sensitivities) rather than here']
-REQUIRED = ['indiv', 'hier', 'posterior', 'nonfinite', 'cov', 'red', 'noncentered', 'kind:pooled', 'kind:hetero']
+    'SBML sub-domain: generated linear PKPD models (dosed, fixed parameters) through the reference integrator vf/simshim.py; '
+    'oracle = complex step through the closed-form solution (matrix exponential)']
+REQUIRED = ['indiv', 'hier', 'sbml', 'dosed', 'sbml_fixed', 'posterior', 'nonfinite', 'cov', 'red', 'noncentered', 'kind:pooled',
+            'kind:hetero']
 
 
 @st.composite
 def _spec(draw):
-    kind = draw(st.sampled_from(['hier', 'indiv']))
+    kind = draw(st.sampled_from(['hier', 'indiv', 'hier', 'indiv', 'sbml']))
+    if kind == 'sbml':
+        from vf import sbmlgen
+        ms = sbmlgen.draw_model(draw, max_states=3)
+        admin = None
+        reg = None
+        if not gen.chance(draw, 0.25):
+            admin = dict(comp=draw(st.integers(0, len(ms['comps']) - 1)), direct=draw(st.booleans()))
+            if not gen.chance(draw, 0.2):
+                reg = dict(dose=draw(gen.logu(0.5, 5.0)), start=draw(gen.logu(0.05, 1.0)),
+                           duration=draw(gen.logu(0.02, 0.3)), period=draw(gen.logu(0.5, 2.0)),
+                           num=draw(st.integers(1, 3)))
+        names = sbmlgen.published_parameters(ms, admin)
+        cands = sbmlgen.state_qnames(ms) + sbmlgen.intermediate_qnames(ms)
+        n_out = draw(st.integers(1, min(2, len(cands))))
+        outs = list(draw(st.permutations(cands))[:n_out])
+        ems = [dict(kind=draw(st.sampled_from(['gauss', 'cm', 'gauss', 'mult', 'lognorm'])), fixed=None)
+               for _ in range(n_out)]
+        times, mode, tied = llbuild.draw_time_grids(draw, n_out, None, True)
+        theta = gen.distinct(draw(gen.vec(gen.logu(0.1, 1.5), len(names))))
+        # conditioning: exp(-rate*t) >= 3e-4 (outputs far above any solver tolerance)
+        R = sbmlgen.max_out_rate(ms, theta, admin)
+        tmax = max(t for ts in times for t in ts)
+        f = min(1.0, 8.0 / max(R * tmax, 1e-9))
+        times = [[gen.r6(t * f) for t in ts] for ts in times]
+        obs = [draw(gen.vec(gen.logu(0.05, 5.0), len(t))) for t in times]
+        ll = dict(n_out=n_out, n_par=len(names), ems=ems, times=times, obs=obs, tmode=mode, tied=tied)
+        params = theta + draw(gen.vec(gen.logu(0.1, 2.0), sum(llbuild.ll_n_sigma(ll))))
+        fixed = None
+        if len(names) >= 2 and gen.chance(draw, 0.3):
+            idx = draw(gen.subset(len(names), min_size=1, max_size=len(names) - 1))
+            fixed = {str(i): theta[i] for i in idx}
+        prior = llbuild.draw_prior(draw, len(params) - (len(fixed) if fixed else 0),
+                                   [v for i, v in enumerate(params) if not (fixed and str(i) in fixed)]) \
+            if draw(st.booleans()) else None
+        return dict(kind='sbml', ms=ms, admin=admin, reg=reg, outputs=outs, ll=ll, params=params, fixed=fixed,
+                    prior=prior, bad=None)
     if kind == 'indiv':
         ll = llbuild.draw_ll(draw)
         params = llbuild.draw_ll_params(draw, ll)
@@ -76,6 +114,11 @@ def classify(spec):
         labs.append('nonfinite')
     if spec['kind'] == 'hier':
         labs += hbuild.classify(spec)
+    elif spec['kind'] == 'sbml':
+        if spec['reg'] is not None:
+            labs.append('dosed')
+        if spec['fixed']:
+            labs.append('sbml_fixed')
     else:
         if spec['ll']['n_out'] > 1:
             labs.append('multi_output')
@@ -89,6 +132,8 @@ def nontrivial(spec):
         return False
     if spec['kind'] == 'indiv':
         return spec['ll']['n_out'] >= 2
+    if spec['kind'] == 'sbml':
+        return spec['reg'] is not None or spec['ll']['n_out'] >= 2
     return any(lab in hbuild.classify(spec) for lab in (
         'kind:pooled', 'kind:hetero', 'noncentered', 'cov', 'kind:trunc')) and spec['n_ids'] >= 2
 
@@ -96,6 +141,11 @@ def nontrivial(spec):
 def structure(spec):
     if spec['kind'] == 'indiv':
         return ['indiv', llbuild.ll_structure(spec['ll']), spec['prior'] is not None, spec['bad'] is not None]
+    if spec['kind'] == 'sbml':
+        from vf import sbmlgen
+        return ['sbml', sbmlgen.structure(spec['ms']), spec['admin'], spec['reg'] is not None, spec['outputs'],
+                llbuild.ll_structure(spec['ll']), sorted(spec['fixed']) if spec['fixed'] else None,
+                spec['prior'] is not None]
     return ['hier', hbuild.structure(spec), spec['prior'] is not None, spec['bad'] is not None]
 
 
@@ -103,7 +153,52 @@ def check(case):
     import chi
     s = case.spec
     with case.clause('construct'):
-        if s['kind'] == 'indiv':
+        if s['kind'] == 'sbml':
+            from vf import sbmlgen, simshim
+            simshim.install()
+            ms, admin = s['ms'], s['admin']
+            M = sbmlgen.build(ms, chi.PKPDModel)
+            if admin is not None:
+                comp = ms['comps'][admin['comp']]
+                M.set_administration(comp['id'], amount_var='%s_amount' % comp['sid'], direct=admin['direct'])
+            M.set_outputs(list(s['outputs']))
+            if s['reg'] is not None:
+                r = s['reg']
+                M.set_dosing_regimen(dose=r['dose'], start=r['start'], duration=r['duration'], period=r['period'],
+                                     num=r['num'])
+            ll = s['ll']
+            obj = chi.LogLikelihood(M, llbuild.build_error_models(ll), [np.array(o) for o in ll['obs']],
+                                    [np.array(t) for t in ll['times']])
+            full = np.array(s['params'], dtype=float)
+            fixed = {int(k): v for k, v in (s['fixed'] or {}).items()}
+            if fixed:
+                names = obj.get_parameter_names()
+                obj.fix_parameters({names[i]: float(v) for i, v in fixed.items()})
+            free = [i for i in range(len(full)) if i not in fixed]
+            x = full[free]
+            tmax = max(t for ts in ll['times'] for t in ts)
+            ev = []
+            if s['reg'] is not None:
+                r = s['reg']
+                ev = sbmlgen.regimen_events(r['dose'], r['start'], r['duration'], r['period'], r['num'], tmax + 1.0)
+
+            def f(v):
+                z = np.array(full, dtype=complex if np.iscomplexobj(v) else float)
+                for k_, i_ in enumerate(free):
+                    z[i_] = v[k_]
+                psi = z[:ll['n_par']]
+                sigs = llbuild.split_sigmas(ll, z)
+                val = 0.0
+                for o, e in enumerate(ll['ems']):
+                    t = np.array(ll['times'][o], dtype=float)
+                    ybar = sbmlgen.ref_simulate(ms, psi, t, [s['outputs'][o]], admin, ev)[0]
+                    val = val + ref.em_loglik(e['kind'], sigs[o], ybar, np.array(ll['obs'][o], dtype=float))
+                if s['prior'] is not None:
+                    val = val + llbuild.ref_prior(s['prior'], v)
+                return val
+            if s['prior'] is not None:
+                obj = chi.LogPosterior(obj, llbuild.build_prior(s['prior']))
+        elif s['kind'] == 'indiv':
             obj = llbuild.build_ll(s['ll'])
             x = np.array(s['params'], dtype=float)
             n_top0 = 0
@@ -135,7 +230,8 @@ def check(case):
     with case.clause('value'):
         plain = obj(x.copy())
         if np.isfinite(want):
-            case.close(plain, want, rtol=1e-8, what='score of plain evaluation')
+            case.close(plain, want, rtol=1e-6 if s['kind'] == 'sbml' else 1e-8, atol=1e-8 if s['kind'] == 'sbml' else 0.0,
+                       what='score of plain evaluation')
         else:
             case.true(not np.isfinite(plain), 'plain evaluation is finite (%r) where the reference is %r' % (plain, want))
     if plain is None:
@@ -156,7 +252,10 @@ def check(case):
             with case.clause('s1_gradient'):
                 gw = ref.cgrad(f, x)
                 err = np.abs(g - gw)
-                tol = 1e-7 * np.maximum(1.0, np.maximum(np.abs(g), np.abs(gw)))
+                rt = 1e-5 if s['kind'] == 'sbml' else 1e-7      # ODE solution: solver tolerance 1e-10
+                tol = rt * np.maximum(1.0, np.maximum(np.abs(g), np.abs(gw)))
+                if s['kind'] == 'sbml':
+                    tol = tol + 1e-7 * np.max(np.abs(gw))
                 if np.any(~(err <= tol)):
                     k = int(np.argmax(np.where(np.isfinite(err), err / tol, np.inf)))
                     names = obj.get_parameter_names()
